@@ -42,10 +42,10 @@ theorem construct_ok (cls : PyCls) (sh : Shape) (r : Res) (h : construct cls sh 
     · simp only [hu, if_true] at h; cases h; exact ⟨rfl, hu, fun h' => absurd h' hq⟩
     · simp [hu] at h
 
-theorem viewOp_nonreshape (cls : PyCls) (s : Shape) (op : ViewOp) (hnr : ∀ t, op ≠ .reshape t)
+theorem viewOp_nonreshape (cls : PyCls) (s : Shape) (op : ViewOp) (hnr : ∀ t l, op ≠ .reshape t l)
     (hne : ∀ k, op ≠ .expandDims k) (hsq : op ≠ .squeeze) (hsa : ∀ ax, op ≠ .squeezeAxis ax) :
     viewOp cls s op = match viewShape s op with | .error e => .error e | .ok s' => .ok ⟨cls, s'⟩ := by
-  cases op <;> first | rfl | exact absurd rfl (hnr _) | exact absurd rfl (hne _) | exact absurd rfl hsq | exact absurd rfl (hsa _)
+  cases op <;> first | rfl | exact absurd rfl (hnr _ _) | exact absurd rfl (hne _) | exact absurd rfl hsq | exact absurd rfl (hsa _)
 
 /-- `unyt_array.squeeze`: NumPy's shape; a 0-d result of a non-quantity unyt class is re-viewed
     as `unyt_quantity`, everything else keeps its class -/
@@ -74,7 +74,7 @@ theorem viewOp_expandDims (cls : PyCls) (s : Shape) (k : Nat) (r : Res)
     · cases hs'
 
 /-- every view-making method other than `repeat` keeps a 0-d object at one element -/
-theorem viewShape_scalar (op : ViewOp) (s' : Shape) (hnr : ∀ t, op ≠ .reshape t)
+theorem viewShape_scalar (op : ViewOp) (s' : Shape) (hnr : ∀ t l, op ≠ .reshape t l)
     (hrep : ∀ n, op ≠ .repeat_ n) (h : viewShape [] op = .ok s') : size s' = 1 := by
   cases op with
   | squeeze => simp [viewShape, squeeze] at h; subst h; rfl
@@ -101,11 +101,11 @@ theorem viewShape_scalar (op : ViewOp) (s' : Shape) (hnr : ∀ t, op ≠ .reshap
       have : k = 0 := by simpa using hk
       subst this; cases h; rfl
     · cases h
-  | reshape t => exact absurd rfl (hnr t)
+  | reshape t l => exact absurd rfl (hnr t l)
   | repeat_ n => exact absurd rfl (hrep n)
 
 theorem viewShape_ne_nil (s : Shape) (op : ViewOp) (s' : Shape) (hs : s ≠ [])
-    (hop : match op with | .squeeze | .squeezeAxis _ => False | .reshape t => t ≠ [] | _ => True)
+    (hop : match op with | .squeeze | .squeezeAxis _ => False | .reshape t _ => t ≠ [] | _ => True)
     (h : viewShape s op = .ok s') : s' ≠ [] := by
   cases op with
   | squeeze => exact absurd hop id
@@ -125,7 +125,7 @@ theorem viewShape_ne_nil (s : Shape) (op : ViewOp) (s' : Shape) (hs : s ≠ [])
     split at h
     · cases h; simp
     · cases h
-  | reshape t =>
+  | reshape t l =>
     simp only [viewShape] at h
     have := length_reshape s t s' h
     intro hnil; rw [hnil] at this; simp at this
